@@ -1,0 +1,54 @@
+//go:build verif
+
+package store
+
+import (
+	"github.com/andres-erbsen/clock"
+	"github.com/uber-go/tally"
+)
+
+// NewCAStoreWithClock exposes newCAStore to the verification harness so that the
+// memory-cache drain and TTL workers run on a harness-controlled clock.
+func NewCAStoreWithClock(config CAStoreConfig, stats tally.Scope, clk clock.Clock) (*CAStore, error) {
+	return newCAStore(config, stats, clk)
+}
+
+// VerifDrainNext synchronously performs one step of a drain worker (dequeue one
+// item and write it to disk, re-queueing or dropping it on failure).
+func (s *CAStore) VerifDrainNext() {
+	if s.drain != nil {
+		s.drainNext()
+	}
+}
+
+// VerifDrainQueueLen returns the number of items waiting to be drained to disk.
+func (s *CAStore) VerifDrainQueueLen() int {
+	if s.drain == nil {
+		return 0
+	}
+	s.drain.mu.Lock()
+	defer s.drain.mu.Unlock()
+	return s.drain.queue.Len()
+}
+
+// VerifCleanupExpiredMemoryEntries synchronously runs one pass of the memory cache TTL worker.
+func (s *CAStore) VerifCleanupExpiredMemoryEntries() {
+	if s.memCache != nil {
+		s.cleanupMemoryCacheExpiredEntries()
+	}
+}
+
+// VerifMemCacheTotalBytes / VerifMemCacheNumEntries expose the memory cache accounting.
+func (s *CAStore) VerifMemCacheTotalBytes() uint64 {
+	if s.memCache == nil {
+		return 0
+	}
+	return s.memCache.TotalBytes()
+}
+
+func (s *CAStore) VerifMemCacheNumEntries() int {
+	if s.memCache == nil {
+		return 0
+	}
+	return s.memCache.NumEntries()
+}
